@@ -18,6 +18,7 @@ import (
 	"bytes"
 	"crypto/tls"
 	"crypto/x509"
+	"encoding/binary"
 	"encoding/json"
 	"fmt"
 	"io"
@@ -253,7 +254,16 @@ func (ep *ExportingProcess) SendSet(set entities.Set) (int, error) {
 		return 0, fmt.Errorf("set type is not properly defined")
 	}
 	if setType == entities.Data {
+		// The ID in the set header is the one that goes on the wire: it has to be the ID of
+		// a template that was sent, and the one the records of the set were added for.
+		setID := binary.BigEndian.Uint16(set.GetHeaderBuffer())
+		if err := ep.dataSetIDSanityCheck(setID); err != nil {
+			return 0, fmt.Errorf("error when doing sanity check:%v", err)
+		}
 		for _, record := range set.GetRecords() {
+			if record.GetTemplateID() != setID {
+				return 0, fmt.Errorf("error when doing sanity check:process: templateID %d of data record does not match set ID %d", record.GetTemplateID(), setID)
+			}
 			err := ep.dataRecSanityCheck(record)
 			if err != nil {
 				return 0, fmt.Errorf("error when doing sanity check:%v", err)
@@ -465,6 +475,16 @@ func (ep *ExportingProcess) sendRefreshedTemplates() error {
 		if _, err := ep.SendSet(templateSet); err != nil {
 			return err
 		}
+	}
+	return nil
+}
+
+func (ep *ExportingProcess) dataSetIDSanityCheck(setID uint16) error {
+	ep.templateMutex.Lock()
+	defer ep.templateMutex.Unlock()
+
+	if _, exist := ep.templatesMap[setID]; !exist {
+		return fmt.Errorf("process: set ID %d does not exist as templateID in exporting process", setID)
 	}
 	return nil
 }
